@@ -175,6 +175,7 @@ func init() {
 			{Name: "hier", Weight: 3, Fn: c05Profile("hier")},
 			{Name: "mutable", Weight: 2, Fn: c05Profile("mutable")},
 			{Name: "flat-writefaults", Weight: 2, Fn: c05Profile("flat-writefaults")},
+			{Name: "flat-atomics", Weight: 2, Fn: withAtomicYields(c05Profile("flat"))},
 			{Name: "persistent", Weight: 2, Fn: c05Profile("persistent")},
 		},
 		Components: map[string][]string{
